@@ -30,8 +30,8 @@ def main(out):
     lower = [c for c in cps if chr(c).islower()]
     alpha = [c for c in cps if chr(c).isalpha()]
     digit = [c for c in cps if 0x30 <= c <= 0x39]
-    space = [c for c in (0x20, 0x09, 0x0a, 0x0b, 0x0c, 0x0d) if c in cps]
-    cntrl = [c for c in cps if c < 0x20 or 0x7f <= c < 0xa0]
+    space = [c for c in (0x20, 0x09, 0x0a, 0x0b, 0x0c, 0x0d, 0x85, 0xa0) if c in cps]      # NEL and the no-break space are white space in many single-byte locales (BSD, macOS, Windows Latin-1)
+    cntrl = [c for c in cps if (c < 0x20 or 0x7f <= c < 0xa0)]
     punct = [c for c in cps if c not in alpha and c not in digit and c not in cntrl and c not in space and c != 0x20]
     xdigit = [c for c in cps if chr(c) in '0123456789abcdefABCDEF']
     tl = [(c, ord(chr(c).lower())) for c in upper if len(chr(c).lower()) == 1 and ord(chr(c).lower()) in cps]
